@@ -18,7 +18,7 @@ import (
 // C13 — the ECDSA fork accepts and produces exactly standard ECDSA.
 type c13 struct{ base }
 
-func init() { core.Register(c13{base{"C13", "fault_enumeration", 400, 12000}}) }
+func init() { core.Register(c13{base{"C13", "fault_enumeration", 400, 9000}}) }
 
 func (c13) Describe() core.Description {
 	return core.Description{
